@@ -1029,3 +1029,34 @@ Section Inv.
       + rewrite Ht1. lia.
   Qed.
 End Inv.
+
+(* ---------- the statement of Props/C15.v ---------- *)
+Lemma finalize_iff_complete_valid_sequence_gen :
+  forall D dapp V vinit vadd vfinal my_did gc_tick timeout max_slots,
+    (* only if: every final directory of every reachable state *)
+    (forall (ops : list (op D)) (st : state D V) k fd,
+        run D dapp V vinit vadd vfinal fixm fixf my_did gc_tick timeout max_slots init ops = Some st ->
+        alookup key_eqb k (s_finals st) = Some fd ->
+        exists acc, subseq acc (chunks_of D ops) /\
+                    complete D dapp V vinit vadd vfinal my_did k acc fd) /\
+    (* if: from every reachable state that holds nothing of the snapshot *)
+    (forall (ops0 : list (op D)) (st st' : state D V) m0 d0 r ops v' files',
+        run D dapp V vinit vadd vfinal fixm fixf my_did gc_tick timeout max_slots init ops0 = Some st ->
+        clean D V max_slots st m0 ->
+        delivers D my_did m0 1 r ops ->
+        count_ticks D ops < timeout ->
+        same_stream D my_did m0 ((m0, d0) :: r) -> ids_from D 0 ((m0, d0) :: r) -> last_only D ((m0, d0) :: r) ->
+        vfold D V vadd vinit ((m0, d0) :: r) = Some v' -> vfinal v' = true ->
+        replay D dapp [] ((m0, d0) :: r) = Some files' ->
+        run D dapp V vinit vadd vfinal fixm fixf my_did gc_tick timeout max_slots st (OAdd (m0, d0) :: ops) = Some st' ->
+        finalized_as D V st' m0 (fileinfos D [] ((m0, d0) :: r)) files').
+Proof.
+  intros. split.
+  - intros ops st k fd Hr L.
+    exact (finalized_only_if_complete_proved D dapp V vinit vadd vfinal my_did gc_tick timeout max_slots ops st k fd Hr L).
+  - intros ops0 st st' m0 d0 r ops v' files' Hr0.
+    apply (complete_sequence_finalizes_proved D dapp V vinit vadd vfinal my_did gc_tick timeout max_slots
+             ([] ++ chunks_of D ops0) st st' m0 d0 r ops v' files').
+    exact (run_inv D dapp V vinit vadd vfinal my_did gc_tick timeout max_slots ops0 [] init st
+                   (init_inv D dapp V vinit vadd vfinal my_did) Hr0).
+Qed.
